@@ -459,31 +459,58 @@ pub open spec fn is_recurrence_value(f: u64, args: Seq<Value>, v: Value) -> bool
 
 
 def tail_loop_fn(text):
-    """(F) `execute_user_function`: the statements `let mut current_args = input_arg_values.clone(); loop { .. }` of the match-arm branch.  The fragment's value is the loop's value, so
-    `break X` -> `return X`; `drop(scope)` -> `drop_scope(scope, p)` (the model counts open scopes); `input_arg_values.clone()` -> `clone_args(input_arg_values)`; the type annotation
-    of `step` is kept.  Termination is NOT claimed (a `loop` without measure: partial correctness)."""
+    """(F) `execute_user_function`: the match-arm branch `if !fxn_def.code.match_arms.is_empty() { .. }` from `let mut current_args = input_arg_values.clone();` to its end.
+    The branch's value is the loop's value, so for a trailing `loop {..}` `break X` -> `return X`; for `let R = loop {..}; ..; R` the loop gets a result slot
+    (`R_slot = Some(X); break;` / `let R = R_slot.unwrap();`, Verus has no break-with-value).  `drop(scope)` -> `drop_scope(scope, p)` (the model counts open scopes);
+    `input_arg_values.clone()` -> `clone_args(input_arg_values)`; the type annotation of `step` is kept.  Ghost: the chain of argument lists, and whether the current list has
+    been bound (set after each `bind_function_inputs(fxn_def, &current_args, p)?`, reset when `current_args` is replaced).  Termination is NOT claimed (partial correctness)."""
     sig, body = extract_fn(text, "execute_user_function")
     b0 = re.sub(r"//[^\n]*", "", body).replace("\r", "")
-    a = find_code(b0, r"let\s+mut\s+current_args\s*:\s*Vec<Value>\s*=\s*input_arg_values\.clone\(\)\s*;")
-    if not a:
-        raise AnchorLost("execute_user_function: `let mut current_args: Vec<Value> = input_arg_values.clone();` not found")
-    ml = re.match(r"\s*loop\s*\{", b0[a.end():])
-    if not ml:
-        raise AnchorLost("execute_user_function: the tail-call `loop` does not follow `current_args`")
-    e = match_brace(b0, a.end() + ml.end() - 1)
-    b = b0[a.start():e]
-    b = b.replace("input_arg_values.clone()", "clone_args(input_arg_values)")
+    mi = find_code(b0, r"if\s+!\s*fxn_def\.code\.match_arms\.is_empty\(\)\s*\{")
+    if not mi:
+        raise AnchorLost("execute_user_function: the match-arm branch `if !fxn_def.code.match_arms.is_empty() {` not found")
+    blk = b0[mi.end():match_brace(b0, mi.end() - 1) - 1]
+    a = re.search(r"let\s+mut\s+current_args\s*:\s*Vec<Value>\s*=\s*input_arg_values\.clone\(\)\s*;", blk)
+    if not a or blk[:a.start()].strip():
+        raise AnchorLost("execute_user_function: the match-arm branch does not start with `let mut current_args: Vec<Value> = input_arg_values.clone();`")
+    b = blk[a.start():]
+    loops = vlib.find_all_code(b, r"\bloop\s*\{")
+    if len(loops) != 1 or re.search(r"\b(for|while)\b", b):
+        raise AnchorLost("execute_user_function: the match-arm branch must contain exactly one `loop`")
+    ml = loops[0]
+    le = match_brace(b, ml.end() - 1)
+    pre, loop, post = b[:ml.start()], b[ml.start():le], b[le:]
+    mlet = re.search(r"let\s+(\w+)\s*=\s*$", pre)
+    opened = len(re.findall(r"FunctionScope::enter\(", pre)) - len(re.findall(r"\bdrop\(\s*scope\s*\)", pre))      # scopes open when the loop is entered
+    INV = ("      invariant p.depth@ == d0, d0 == old(p).depth@ + %d, chain.len() > 0, chain[0] == input_arg_values@, chain[chain.len() - 1] == current_args@,\n"
+           "        last_bound == %s, last_bound ==> binds(fxn_def.id, chain[chain.len() - 1]),\n"
+           "        forall|i: int| 0 <= i < chain.len() - 1 ==> binds(fxn_def.id, #[trigger] chain[i]) && arms(fxn_def.id, chain[i]) == StepV::TailCall(chain[i + 1]),\n") % (opened, "true" if re.search(r"bind_function_inputs\(\s*fxn_def\s*,\s*&current_args\s*,\s*p\s*\)\?", pre) else "false")
+    if mlet:
+        R = mlet.group(1)
+        if not post.lstrip().startswith(";") or not re.search(r"\b%s\s*$" % R, post.rstrip()):
+            raise AnchorLost("execute_user_function: `let %s = loop {..}` is not followed by statements ending in `%s`" % (R, R))
+        pre = pre[:mlet.start()] + "let mut %s_slot: Option<Result<Value, MechError>> = None;\n    " % R
+        loop, n = re.subn(r"\bbreak\s+(Ok\(\s*\w+\s*\))\s*,", r"{ proof { assert(unfolds(fxn_def.id, chain, value)); } %s_slot = Some(\1); break; }" % R, loop)
+        head = ("let ghost d0 = p.depth@;\n    loop\n      invariant_except_break %s_slot is None,\n" % R + INV +
+                "      ensures p.depth@ == d0, %s_slot is Some, forall|v: Value| %s_slot == Some(Ok::<Value, MechError>(v)) ==> is_recurrence_value(fxn_def.id, input_arg_values@, v),\n    {" % (R, R))
+        post = "\n    let %s = %s_slot.unwrap()" % (R, R) + post
+    else:
+        if post.strip():
+            raise AnchorLost("execute_user_function: statements follow the tail-call `loop`")
+        loop, n = re.subn(r"\bbreak\s+(Ok\(\s*\w+\s*\))\s*,", r"{ proof { assert(unfolds(fxn_def.id, chain, value)); } return \1; }", loop)
+        head = "let ghost d0 = p.depth@;\n    loop\n" + INV + "    {"
+    loop, n2 = re.subn(r"\bloop\s*\{", lambda m_: head, loop, count=1)
+    b = pre + loop + post
+    b, n0 = re.subn(r"(let\s+mut\s+current_args\s*:\s*Vec<Value>\s*=\s*)input_arg_values\.clone\(\)\s*;",
+                    r"\1clone_args(input_arg_values);\n    let ghost mut chain: Seq<Seq<Value>> = seq![current_args@];\n    let ghost mut last_bound: bool = false;", b)
     b = re.sub(r"\bdrop\(\s*scope\s*\)", "drop_scope(scope, p)", b)
-    b, n = re.subn(r"\bbreak\s+(Ok\(\s*\w+\s*\))\s*,", r"{ proof { assert(unfolds(fxn_def.id, chain, value)); } return \1; }", b)
-    INV = ("      invariant p.depth@ == old(p).depth@, chain.len() > 0, chain[0] == input_arg_values@, chain[chain.len() - 1] == current_args@,\n"
-           "        forall|i: int| 0 <= i < chain.len() - 1 ==> binds(fxn_def.id, #[trigger] chain[i]) && arms(fxn_def.id, chain[i]) == StepV::TailCall(chain[i + 1]),\n")
-    b, n2 = re.subn(r"\bloop\s*\{", "let ghost mut chain: Seq<Seq<Value>> = seq![current_args@];\n    loop\n" + INV + "    {", b, count=1)
-    b, n3 = re.subn(r"(current_args\s*=\s*next_args\s*;)", r"proof { chain = chain.push(next_args@); }\n          \1", b)
-    if (n, n2, n3) != (1, 1, 1) or re.search(r"\bbreak\b", b):
-        raise AnchorLost("execute_user_function: the tail-call loop is outside the transcription rules %r" % ((n, n2, n3),))
+    b, nb = re.subn(r"(bind_function_inputs\(\s*fxn_def\s*,\s*&current_args\s*,\s*p\s*\)\?\s*;)", r"\1 proof { last_bound = true; }", b)
+    b, n3 = re.subn(r"(current_args\s*=\s*next_args\s*;)", r"proof { chain = chain.push(next_args@); last_bound = false; }\n          \1", b)
+    if (n0, n, n2, n3) != (1, 1, 1, 1) or re.search(r"\bbreak\s+\w", b) or len(re.findall(r"\bcurrent_args\s*=[^=]", b)) != 1:
+        raise AnchorLost("execute_user_function: the tail-call loop is outside the transcription rules %r" % ((n0, n, n2, n3),))
     return ("#[verifier::exec_allows_no_decreases_clause]\nfn tail_call_loop(fxn_def: &FunctionDefinition, input_arg_values: &Vec<Value>, p: &mut Interpreter) -> (res: Result<Value, MechError>)\n"
             "  ensures res matches Ok(v) ==> is_recurrence_value(fxn_def.id, input_arg_values@, v),\n"
-            "    // every round closes the scope it opened (on the paths that do not fail)\n    res is Ok ==> final(p).depth@ == old(p).depth@,\n{\n    " + b + "\n}\n")
+            "    // every scope opened is closed again (on the paths that do not fail)\n    res is Ok ==> final(p).depth@ == old(p).depth@,\n{\n    " + b + "\n}\n")
 
 
 def tail_unit(text):
